@@ -343,7 +343,9 @@ static OrcProgram *fixed_program(const std::string &which) {
 }
 
 OrcProgram *build_program(const std::string &spec, const std::string &name, ProgMeta *meta) {
-  auto f = split(spec, ':');
+  // "<base>+<opcode>.<srcvar>+...": instructions d1 = <opcode> d1, <srcvar> appended to the base program
+  auto parts = split(spec, '+');
+  auto f = split(parts[0], ':');
   OrcProgram *p = nullptr;
   *meta = ProgMeta();
   meta->spec = spec;
@@ -367,6 +369,10 @@ OrcProgram *build_program(const std::string &spec, const std::string &name, Prog
   }
   if (!p) {
     p = fixed_program("copyb");
+  }
+  for (size_t k = 1; k < parts.size(); k++) {
+    auto e = split(parts[k], '.');
+    if (e.size() == 2) orc_program_append_2(p, e[0].c_str(), 0, ORC_VAR_D1, ORC_VAR_D1, atoi(e[1].c_str()), 0);
   }
   orc_program_set_name(p, name.c_str());
   fill_meta(p, meta);
